@@ -61,6 +61,10 @@ def run(P, rep, tier):
     from . import c01
 
     rep.attempt(c01.r2_delete_marker, P, rep, ctx)
+    # moving a node moves its metadata group with it (MetadorGroup.move moves both through the driver): the IH5 move must be
+    # the overlay copy + overlay delete over ALL containers -- a raw relink inside the newest container carries over only what
+    # that container holds, the metadata objects stored in older patches are dropped while their TOC links remain
+    rep.attempt(c01.r6_move_copy, P, rep, ctx)
     # at most one object per schema and node (attach discipline of C07.R2): a second object's link outlives its deletion
     rep.attempt(c07.r2_set_discipline, P, rep, ctx)
     rep.floor("C06.R1", 18)
